@@ -83,7 +83,8 @@ def selector_names(pattern: str, names: list[str]) -> list[str]:
 
 
 class _P:
-    def __init__(self, toks: list[str], names: list[str], leaf: Callable[[str], Formula]):
+    def __init__(self, toks: list[str], names: list[str], leaf: Callable[[str], Formula], allow_empty: bool = False):
+        self.allow_empty = allow_empty
         self.t = toks
         self.i = 0
         self.names = names
@@ -140,6 +141,8 @@ class _P:
             sel = selector_names(pat, self.names)
             self.selectors.append((tok, pat, sel))
             if not sel:
+                if self.allow_empty:
+                    return ("and", []) if tok == "all" else ("or", [])
                 raise EmptySelector(pat)
             fs = [self.leaf(n) for n in sel]
             if len(fs) == 1:
@@ -153,10 +156,10 @@ class _P:
         return self.leaf(tok)
 
 
-def parse_condition(s: str, names: list[str], leaf: Callable[[str], Formula]):
+def parse_condition(s: str, names: list[str], leaf: Callable[[str], Formula], allow_empty: bool = False):
     """Parse condition text.  `names` is the ordered list of detection names of the rule,
     `leaf(name)` gives the formula a detection stands for.  Returns (formula, info)."""
-    p = _P(tokenize(s), names, leaf)
+    p = _P(tokenize(s), names, leaf, allow_empty)
     f = p.or_expr()
     if p.peek() is not None:
         raise RefConditionError(f"trailing token {p.peek()!r}")
